@@ -310,6 +310,9 @@ func connLabels(c *connCase, lp layerParams, out connOutcome) (labels []string, 
 	if c.Chop[0].short() || c.Chop[1].short() {
 		add("short-reads")
 	}
+	if c.Chop[0].EOFWithData || c.Chop[1].EOFWithData {
+		add("eof-delivered-with-last-bytes")
+	}
 	if c.Tamper.Op != tNone {
 		if out.applied {
 			nontrivial = true
